@@ -2393,11 +2393,13 @@ class MultiUserChannelMatrixExtInt(  # pylint: disable=R0904
             = MultiUserChannelMatrixExtInt._prepare_input_parans(
                 Nr, Nt, K, NtE)
 
-        self._extIntK = extIntK
-        self._extIntNt = extIntNt
-
+        # The base class validates the arguments: only a valid call may
+        # change the number of external interference sources
         MultiUserChannelMatrix.init_from_channel_matrix(
             self, channel_matrix, full_Nr, full_Nt, full_K)
+
+        self._extIntK = extIntK
+        self._extIntNt = extIntNt
 
     def randomize(  # type: ignore
             self, Nr: IntOrIntArrayUnion, Nt: IntOrIntArrayUnion, K: int,
@@ -2466,24 +2468,27 @@ class MultiUserChannelMatrixExtInt(  # pylint: disable=R0904
         ext_int_pathloss : np.ndarray
             The external interference path loss.
         """
-        # A matrix with the path loss from each transmitter to each
-        # receiver.
-        self._pathloss_matrix = pathloss_matrix
-        self._big_H_with_pathloss = None
-        self._H_with_pathloss = None
-
         if pathloss_matrix is None:
             self._pathloss_matrix = None
             self._pathloss_big_matrix = None
+            self._big_H_with_pathloss = None
+            self._H_with_pathloss = None
         else:
+            # Everything is computed before the object is changed, so that a
+            # call with invalid arguments leaves the path loss as it was
             pathloss_matrix_with_ext_int = np.hstack(
                 [pathloss_matrix, ext_int_pathloss])
-            self._pathloss_matrix = pathloss_matrix_with_ext_int
-
-            self._pathloss_big_matrix \
+            pathloss_big_matrix \
                 = MultiUserChannelMatrix._from_small_matrix_to_big_matrix(
                     pathloss_matrix_with_ext_int, self._Nr, self._Nt,
                     self.K, self._K)
+
+            # A matrix with the path loss from each transmitter (and
+            # external interference source) to each receiver.
+            self._pathloss_matrix = pathloss_matrix_with_ext_int
+            self._pathloss_big_matrix = pathloss_big_matrix
+            self._big_H_with_pathloss = None
+            self._H_with_pathloss = None
 
             # Assures that _pathloss_matrix and _pathloss_big_matrix
             # will stay in sync by disallowing modification of
